@@ -54,6 +54,7 @@ func c14(c *Ctx) {
 			fn      *ssa.Function
 			ops     []boltOp
 			buckets map[string]bool
+			tb      *ir.TB
 		}
 		methods := map[string]*minfo{}
 		for _, k := range kinds {
@@ -70,6 +71,12 @@ func c14(c *Ctx) {
 				c.R.Note("functions", fk)
 				// collect bolt operations in the method and its closures
 				tree := c.Closure([]*ssa.Function{fn}, true, func(f *ssa.Function) bool { return load_FuncPkgPath(f) != PkgPersist })
+				// terms are built in the context of this method: parameters of helpers shared by several
+				// methods are resolved through the call site inside this method's own call tree
+				tb := ir.NewTB(c.P.IsRepoFunc, c.P.FuncKey)
+				tb.InlineMaxBlocks = 0
+				tb.ParamCallers = c.CallersIn(tree)
+				mi.tb = tb
 				for _, f := range c.SortedFuncs(tree) {
 					Calls(f, func(cc ssa.CallInstruction) {
 						if call, ok := cc.(*ssa.Call); ok {
@@ -262,7 +269,7 @@ func c14(c *Ctx) {
 					}
 					bad := ""
 					for _, rv := range returnsFrom(edgeStarts(es), ir.Search{}) {
-						t := tb.Of(ir.ResultVia(rv.ret, 0, rv.via), nil)
+						t := mi.tb.Of(ir.ResultVia(rv.ret, 0, rv.via), nil)
 						if wantNotExist && t.Op != "global:os.ErrNotExist" {
 							bad = "returns " + t.String() + " at " + c.P.Pos(rv.ret.Pos())
 						}
@@ -327,8 +334,9 @@ func c14(c *Ctx) {
 				// the method returns the transaction's error
 				ei := errResultIndex(mi.fn)
 				okRet := false
+				tbi := ir.NewTB(c.P.IsRepoFunc, c.P.FuncKey)
 				for _, r := range ir.Returns(mi.fn) {
-					t := tb.Of(r.Results[ei], nil)
+					t := tbi.Of(r.Results[ei], nil)
 					if t.Has(func(x *ir.Term) bool { return strings.HasPrefix(x.Op, "call:(*"+boltPkg+".DB).") }) {
 						okRet = true
 					}
@@ -346,7 +354,7 @@ func c14(c *Ctx) {
 					if op.kind != "Put" {
 						continue
 					}
-					t := tb.Of(op.call.Call.Args[2], nil)
+					t := mi.tb.Of(op.call.Call.Args[2], nil)
 					m := t.Find(func(x *ir.Term) bool { return x.Op == "call:encoding/json.Marshal" })
 					if m == nil {
 						c.R.Bad("R-data", fk+"|put-value", fk, c.P.Pos(op.call.Pos()), "the stored value is not the json.Marshal of the data: "+t.String())
